@@ -1,0 +1,76 @@
+//go:build verif
+
+// Contracts for the deductive verifier in /verif (gvc). Comment-only: compiled only under the build
+// tag `verif`, contains no code.
+package constructor
+
+// ---- C02: the @constructor checker -----------------------------------------------------------------------------
+// `packageAnnotations` is a ghost parameter of the node checks: the property is stated over the annotation relation
+// ctorDeclared (src/indexing/zz_contracts_verif.go), the lookup table must be exactly that relation.
+//@ macro func regOK(pass *analysis.Pass, reg util.TypeAssociationRegistry, ann *annotations.PackageAnnotations) bool = pass.Pkg != nil && ann != nil && (forall p string, t string, x string :: contains(tarList(reg, p, t), x) <==> ctorDeclared(pass, ann, p, t, x))
+
+// an instance of the type behind T is created outside its constructors (fn = enclosing function)
+//@ pure func instHit(pass *analysis.Pass, ann *annotations.PackageAnnotations, fn string, T types.Type) bool = isDef(T) && (exists x string :: ctorDeclared(pass, ann, defPkg(T), defName(T), x)) && !(pass.Pkg.Path() == defPkg(T) && ctorDeclared(pass, ann, defPkg(T), defName(T), fn))
+// new(T) spelled with the identifier new
+//@ pure func newHit(pass *analysis.Pass, ann *annotations.PackageAnnotations, fn string, call *ast.CallExpr) bool = typeis(call.Fun, *ast.Ident) && cast(call.Fun, *ast.Ident).Name == "new" && len(call.Args) == 1 && instHit(pass, ann, fn, pass.TypesInfo.TypeOf(call.Args[0]))
+// var x T without initialiser, x not blank, T not a pointer
+//@ pure func varHit(pass *analysis.Pass, ann *annotations.PackageAnnotations, fn string, name *ast.Ident) bool = name.Name != "_" && !typeis(types.Unalias(pass.TypesInfo.TypeOf(name)), *types.Pointer) && instHit(pass, ann, fn, pass.TypesInfo.TypeOf(name))
+
+//@ func checkCompositeLiteral
+//@   props C02 C13 C10
+//@   ghostparam packageAnnotations *annotations.PackageAnnotations
+//@   requires regOK(pass, constructors, packageAnnotations)
+//@   fresh
+//@   ensures (result != nil) == instHit(pass, packageAnnotations, currentFunction, pass.TypesInfo.TypeOf(lit))
+//@   ensures result != nil ==> result.Code == "CTOR01" && result.Pos == lit.Pos() && result.Node == lit
+//@   assigns nothing
+
+//@ func checkNewCall
+//@   props C02 C13 C10
+//@   ghostparam packageAnnotations *annotations.PackageAnnotations
+//@   requires regOK(pass, constructors, packageAnnotations)
+//@   fresh
+//@   ensures (result != nil) == newHit(pass, packageAnnotations, currentFunction, call)
+//@   ensures result != nil ==> result.Code == "CTOR02" && result.Pos == call.Pos() && result.Node == call
+//@   assigns nothing
+
+// the names of a var declaration that must be reported: spec s, name m
+//@ macro func varSpecHit(pass *analysis.Pass, ann *annotations.PackageAnnotations, fn string, decl *ast.GenDecl, s int, m int) bool = 0 <= s && s < len(decl.Specs) && typeis(decl.Specs[s], *ast.ValueSpec) && len(cast(decl.Specs[s], *ast.ValueSpec).Values) == 0 && 0 <= m && m < len(cast(decl.Specs[s], *ast.ValueSpec).Names) && varHit(pass, ann, fn, cast(decl.Specs[s], *ast.ValueSpec).Names[m])
+//@ macro func varSpecPos(decl *ast.GenDecl, s int, m int) token.Pos = cast(decl.Specs[s], *ast.ValueSpec).Names[m].Pos()
+
+//@ func checkVarDeclaration
+//@   props C02 C13 C10
+//@   ghostparam packageAnnotations *annotations.PackageAnnotations
+//@   requires regOK(pass, constructors, packageAnnotations)
+//@   ensures forall j int :: 0 <= j && j < len(result) ==> result[j].Code == "CTOR03" && (exists s int, m int :: varSpecHit(pass, packageAnnotations, currentFunction, decl, s, m) && result[j].Pos == varSpecPos(decl, s, m))
+//@   ensures forall s int, m int :: varSpecHit(pass, packageAnnotations, currentFunction, decl, s, m) ==> (exists j int :: 0 <= j && j < len(result) && result[j].Code == "CTOR03" && result[j].Pos == varSpecPos(decl, s, m))
+//@   assigns nothing
+//@   loop 1 invariant forall j int :: 0 <= j && j < len(violations) ==> violations[j].Code == "CTOR03" && (exists s int, m int :: s < $i && varSpecHit(pass, packageAnnotations, currentFunction, decl, s, m) && violations[j].Pos == varSpecPos(decl, s, m))
+//@   loop 1 invariant forall s int, m int :: s < $i && varSpecHit(pass, packageAnnotations, currentFunction, decl, s, m) ==> (exists j int :: 0 <= j && j < len(violations) && violations[j].Code == "CTOR03" && violations[j].Pos == varSpecPos(decl, s, m))
+//@   loop 2 invariant forall j int :: 0 <= j && j < len(violations) ==> violations[j].Code == "CTOR03" && (exists s int, m int :: (s < $i1 || (s == $i1 && m < $i)) && varSpecHit(pass, packageAnnotations, currentFunction, decl, s, m) && violations[j].Pos == varSpecPos(decl, s, m))
+//@   loop 2 invariant forall s int, m int :: (s < $i1 || (s == $i1 && m < $i)) && varSpecHit(pass, packageAnnotations, currentFunction, decl, s, m) ==> (exists j int :: 0 <= j && j < len(violations) && violations[j].Code == "CTOR03" && violations[j].Pos == varSpecPos(decl, s, m))
+
+// ---- the walk ----------------------------------------------------------------------------------------------------
+//@ macro func declFnC(d ast.Decl) string = typeis(d, *ast.FuncDecl) ? cast(d, *ast.FuncDecl).Name.Name : ""
+
+// What must be reported at node n while inside a function named fn ("" at package level): code and position.
+//@ pure func nodeViolC(pass *analysis.Pass, ann *annotations.PackageAnnotations, fn string, n ast.Node, code string, pos token.Pos) bool = (typeis(n, *ast.CompositeLit) && instHit(pass, ann, fn, pass.TypesInfo.TypeOf(cast(n, *ast.CompositeLit))) && code == "CTOR01" && pos == n.Pos()) || (typeis(n, *ast.CallExpr) && newHit(pass, ann, fn, cast(n, *ast.CallExpr)) && code == "CTOR02" && pos == n.Pos()) || (typeis(n, *ast.GenDecl) && cast(n, *ast.GenDecl).Tok == token.VAR && code == "CTOR03" && (exists s int, m int :: varSpecHit(pass, ann, fn, cast(n, *ast.GenDecl), s, m) && pos == varSpecPos(cast(n, *ast.GenDecl), s, m)))
+
+//@ macro func justifiedC(cfg *config.Config, pass *analysis.Pass, ann *annotations.PackageAnnotations, code string, pos token.Pos) bool = exists f *ast.File, di int, n ast.Node :: contains(pass.Files, f) && !skipFile(cfg, pass, f) && 0 <= di && di < len(f.Decls) && inspIn(n, f.Decls[di]) && nodeViolC(pass, ann, declFnC(f.Decls[di]), n, code, pos)
+//@ macro func declDoneC(pass *analysis.Pass, ann *annotations.PackageAnnotations, vs []ConstructorViolation, f *ast.File, di int) bool = forall n ast.Node, code string, pos token.Pos :: inspIn(n, f.Decls[di]) && nodeViolC(pass, ann, declFnC(f.Decls[di]), n, code, pos) ==> (exists j int :: 0 <= j && j < len(vs) && vs[j].Code == code && vs[j].Pos == pos)
+
+// C02: the reported violations are exactly those the property demands, in every declaration of every analysed file.
+//@ func CheckConstructor
+//@   props C02 C12 C14 C10
+//@   requires config != nil && pass.Pkg != nil && packageAnnotations != nil
+//@   ensures forall j int :: 0 <= j && j < len(result) ==> justifiedC(config, pass, packageAnnotations, result[j].Code, result[j].Pos)
+//@   ensures forall f *ast.File, di int :: contains(pass.Files, f) && !skipFile(config, pass, f) && 0 <= di && di < len(f.Decls) ==> declDoneC(pass, packageAnnotations, result, f, di)
+//@   loop 1 invariant forall j int :: 0 <= j && j < len(violations) ==> justifiedC(config, pass, packageAnnotations, violations[j].Code, violations[j].Pos)
+//@   loop 1 invariant forall k int, di int :: 0 <= k && k < $i && 0 <= di && di < len($seq[k].Decls) ==> declDoneC(pass, packageAnnotations, violations, $seq[k], di)
+//@   loop 2 invariant forall j int :: 0 <= j && j < len(violations) ==> justifiedC(config, pass, packageAnnotations, violations[j].Code, violations[j].Pos)
+//@   loop 2 invariant forall k int, di int :: 0 <= k && k < $i1 && 0 <= di && di < len($seq1[k].Decls) ==> declDoneC(pass, packageAnnotations, violations, $seq1[k], di)
+//@   loop 2 invariant forall di int :: 0 <= di && di < $i ==> declDoneC(pass, packageAnnotations, violations, file, di)
+//@   at call ast.Inspect#1 invariant forall j int :: 0 <= j && j < len(violations) ==> justifiedC(config, pass, packageAnnotations, violations[j].Code, violations[j].Pos)
+//@   at call ast.Inspect#1 invariant forall k int, di int :: 0 <= k && k < $i1 && 0 <= di && di < len($seq1[k].Decls) ==> declDoneC(pass, packageAnnotations, violations, $seq1[k], di)
+//@   at call ast.Inspect#1 invariant forall di int :: 0 <= di && di < $i2 ==> declDoneC(pass, packageAnnotations, violations, file, di)
+//@   at call ast.Inspect#1 invariant forall k int, code string, pos token.Pos :: 0 <= k && k < $i && nodeViolC(pass, packageAnnotations, currentFunction, $seq[k], code, pos) ==> (exists j int :: 0 <= j && j < len(violations) && violations[j].Code == code && violations[j].Pos == pos)
